@@ -3,13 +3,14 @@
 spec/C03/ValTerms.tla    value universe as constructor terms (shared with C05), Val / Txt
 spec/C03/OpsOracle.tla   P-spec: operator table, definedness, families; TLC is the evaluator
 spec/C03/MCOpsOracle.*   design-level run: evaluates every defined row, PrintCanonical, exports rows.ndjson
+spec/C03/RowProbe.tla    + RowEval.java: TLC evaluates rows one by one, its evaluation errors caught per row
 spec/C03/OpsJudge.tla    verdict spec: compares what the library did on each row with TLC's result
 harness/cmd/c03drv       evaluates every row on the real distsys/tla (recover + CPU watchdog)
 
-Pipeline: TLC enumerates the rows -> c03drv evaluates them on the real library -> a sample of
-the rows on which TLC is predicted to fail (and every row on which the library returned a value
-there) is evaluated one by one in the TLC REPL to anchor "TLC reports an error" in TLC itself ->
-TLC (OpsJudge) evaluates the printed library results and emits one verdict per row.
+Pipeline: TLC enumerates the rows -> c03drv evaluates them on the real library -> every row on which
+the table predicts a TLC error is evaluated on its own by TLC (RowEval), so that "TLC reports an error
+here" is TLC's statement, not the table's -> TLC (OpsJudge, on slices of the table) evaluates the printed
+library results and emits one verdict per row.
 """
 import concurrent.futures
 import json
